@@ -6,6 +6,9 @@ mod piece;
 mod position;
 mod scores;
 
+#[cfg(daniel729_chess_verif)]
+pub mod verif_hooks;
+
 use anyhow::{bail, Context};
 use arrayvec::ArrayVec;
 use gamestate::GameState;
